@@ -17,6 +17,7 @@ import random
 import traceback
 
 from . import common
+from . import c20_qr
 
 PROP = "C20"
 
@@ -306,10 +307,13 @@ class KToeplitzMatmul(K):
         M = mk(**case["M"], dtype=torch.float64)
         return tns(torch.matmul(dense_toeplitz(c, r), M))
 
-    def term(self, case, obs):
+    variants = {"pinned_1d_rhs_raises": "false"}
+
+    def term(self, case, obs, variant=None):
+        flag = self.variants[variant] if variant else "true"
         if case["cell"]["sym"]:
-            return "chk (sym_toeplitz_matmul true %s %s) %s" % (t_lit(case["c"]), t_lit(case["M"]), e_lit(obs))
-        return "chk (toeplitz_matmul true %s %s %s) %s" % (t_lit(case["c"]), t_lit(case["r"]), t_lit(case["M"]), e_lit(obs))
+            return "chk (sym_toeplitz_matmul %s %s %s) %s" % (flag, t_lit(case["c"]), t_lit(case["M"]), e_lit(obs))
+        return "chk (toeplitz_matmul %s %s %s %s) %s" % (flag, t_lit(case["c"]), t_lit(case["r"]), t_lit(case["M"]), e_lit(obs))
 
 
 class KToeplitzDQF(K):
@@ -761,8 +765,11 @@ class KSparseGetitem(K):
         d = sp_dense(case["S"])
         return tns(d[tuple(idx_py(tuple(ix)) for ix in case["idxs"])])
 
-    def term(self, case, obs):
-        return "chkS (sparse_getitem true %s [%s]) %s" % (sp_lit(case["S"]), "; ".join(idx_lit(tuple(ix)) for ix in case["idxs"]), e_lit(obs))
+    variants = {"pinned": "false"}
+
+    def term(self, case, obs, variant=None):
+        flag = self.variants[variant] if variant else "true"
+        return "chkS (sparse_getitem %s %s [%s]) %s" % (flag, sp_lit(case["S"]), "; ".join(idx_lit(tuple(ix)) for ix in case["idxs"]), e_lit(obs))
 
 
 class KSparseRepeat(K):
@@ -811,8 +818,12 @@ class KSparseRepeat(K):
     def oracle(self, case):
         return tns(sp_dense(case["S"]).repeat(*case["cell"]["reps"]))
 
-    def term(self, case, obs):
-        return "chkS (Ok (sparse_repeat stride_dense %s %s)) %s" % (sp_lit(case["S"]), common.natlist(case["cell"]["reps"]), e_lit(obs))
+    variants = {"pinned_stride": "true stride_pinned", "pinned_call": "false stride_dense", "pinned_both": "false stride_pinned"}
+
+    def term(self, case, obs, variant=None):
+        flags = self.variants[variant] if variant else "true stride_dense"
+        args = "(%s %s)" % ("RTuple" if case["cell"]["as_tuple"] else "RVarargs", common.natlist(case["cell"]["reps"]))
+        return "chkS (sparse_repeat_call %s %s %s) %s" % (flags, sp_lit(case["S"]), args, e_lit(obs))
 
 
 class KToSparse(K):
@@ -1085,9 +1096,22 @@ def full_key(kn, case, obs, exp):
     return k
 
 
+def kterm(kn, case, obs, variant=None):
+    if variant is None:
+        return kn.term(case, obs)
+    return kn.term(case, obs, variant)
+
+
 def correspondence(ctx, cases, report=True):
-    """runs implementation + oracle + model; returns stats dict"""
-    terms, owners = [], []
+    """runs implementation + dense oracle + Coq model on every case.
+
+    Per (case, dtype): `direct` = the property predicate (observed == dense definition), `spec` = the Coq model of the
+    specified behaviour reproduces the observation.  Where the predicate fails and the kernel has transcriptions of
+    pinned-tree defects (K.variants), those are evaluated too: the failure key carries `matches_transcribed_defect`,
+    so a known finding only ever absorbs failures that are EXACTLY the transcribed defect."""
+    terms, meta = [], []            # meta[i] = (owner index, variant or None)
+    owners = []                     # (ci, dn, obs, exp)
+    owner_of = {}                   # (ci, dn) -> owner index (float32 is folded into float64 when identical)
     direct_fail = []
     evals = 0
     per_kernel = {}
@@ -1102,54 +1126,77 @@ def correspondence(ctx, cases, report=True):
                 nonint += 1
                 direct_fail.append((ci, dn, obs, exp))
                 continue
-            if not same_obs(obs, exp):
+            ok = same_obs(obs, exp)
+            if not ok:
                 direct_fail.append((ci, dn, obs, exp))
-            if any(same_obs(obs, o) and ("err" in obs) == ("err" in o) for o in seen):
+            dup = [oi for (o, oi) in seen if same_obs(obs, o) and ("err" in obs) == ("err" in o)]
+            if dup:
+                owner_of[(ci, dn)] = dup[0]
                 continue
-            seen.append(obs)
-            tm = kn.term(case, obs)
+            tm = kterm(kn, case, obs)
             if tm is None:
                 continue
-            terms.append(tm)
+            oi = len(owners)
             owners.append((ci, dn, obs, exp))
+            owner_of[(ci, dn)] = oi
+            seen.append((obs, oi))
+            terms.append(tm)
+            meta.append((oi, None))
+            if not ok:
+                for v in getattr(kn, "variants", {}):
+                    terms.append(kterm(kn, case, obs, v))
+                    meta.append((oi, v))
     shards = [("c20_%d" % (i // SHARD), shard_src(terms[i:i + SHARD])) for i in range(0, len(terms), SHARD)]
     res = common.run_shards(ctx, shards)
-    mism = []
+    bad_terms = set()
     shard_fail = []
     for si, (name, _) in enumerate(shards):
         rc, out = res[name]
         bad = common.parse_coq_list_of_nat(out) if rc == 0 else None
         if bad is None:
             shard_fail.append((name, out[-700:]))
+            bad_terms |= set(range(si * SHARD, min(len(terms), (si + 1) * SHARD)))
             continue
-        mism += [si * SHARD + b for b in bad]
-    reported = set()
+        bad_terms |= {si * SHARD + b for b in bad}
+    spec_ok = {}
+    variant_ok = {}
+    term_of = {}
+    for ti, (oi, v) in enumerate(meta):
+        if v is None:
+            spec_ok[oi] = ti not in bad_terms
+            term_of[oi] = ti
+        elif ti not in bad_terms:
+            variant_ok.setdefault(oi, []).append(v)
+    mism = [oi for oi, okk in spec_ok.items() if not okk]
     n_model_wrong = 0
+    transcribed = 0
     if report:
         for name, out in shard_fail:
             ctx.violation({"kind": "shard-failed", "shard": name, "out": out}, no_input=True)
-        for m in mism:
-            ci, dn, obs, exp = owners[m]
-            kn, case = cases[ci]
-            if not same_obs(obs, exp):
-                reported.add((ci, dn))
-                ctx.violation({"kind": "kernel-differs-from-dense-definition", "case": case, "dtype": dn,
-                               "observed": strip(obs), "expected_dense_definition": exp,
-                               "model_agrees_with_implementation": False}, key=full_key(kn, case, obs, exp))
-            else:
-                n_model_wrong += 1
-                ctx.violation({"kind": "model-implementation-disagreement", "case": case, "dtype": dn, "observed": strip(obs),
-                               "note": "the implementation satisfies the dense definition but coq/C20/Model.v computes something else",
-                               "coq_term": terms[m][:2000]}, no_input=True)
+        if not shard_fail:
+            for oi in mism:
+                ci, dn, obs, exp = owners[oi]
+                kn, case = cases[ci]
+                if same_obs(obs, exp):
+                    n_model_wrong += 1
+                    ctx.violation({"kind": "model-implementation-disagreement", "case": case, "dtype": dn, "observed": strip(obs),
+                                   "note": "the implementation satisfies the dense definition but coq/C20/Model.v computes something else",
+                                   "coq_term": terms[term_of[oi]][:2000]}, no_input=True)
         for (ci, dn, obs, exp) in direct_fail:
-            if (ci, dn) in reported:
-                continue
             kn, case = cases[ci]
+            oi = owner_of.get((ci, dn))
+            key = full_key(kn, case, obs, exp)
+            vs = variant_ok.get(oi, []) if oi is not None else []
+            key["matches_transcribed_defect"] = bool(vs)
+            transcribed += 1 if vs else 0
             ctx.violation({"kind": "kernel-differs-from-dense-definition", "case": case, "dtype": dn,
-                           "observed": strip(obs), "expected_dense_definition": exp}, key=full_key(kn, case, obs, exp))
+                           "observed": strip(obs), "expected_dense_definition": exp,
+                           "spec_model_agrees_with_implementation": spec_ok.get(oi) if oi is not None else None,
+                           "pinned_transcriptions_reproducing_the_observation": vs}, key=key)
     return {"evaluations": evals, "terms": len(terms), "mismatches": len(mism), "direct_failures": len(direct_fail),
+            "direct_failures_equal_to_a_transcribed_defect": transcribed,
             "model_wrong": n_model_wrong, "per_kernel": per_kernel, "shard_failures": len(shard_fail), "nonint": nonint,
-            "mism_idx": mism, "owners": owners, "direct": direct_fail}
+            "owners": owners, "direct": direct_fail}
 
 
 def search_on_failure_factory(ctx):
@@ -1166,9 +1213,12 @@ def search_on_failure_factory(ctx):
             exp = kn.oracle(case)
             for dn, obs in run_impl(kn, case):
                 if not same_obs(obs, exp):
+                    key = full_key(kn, case, obs, exp)
+                    key["matches_transcribed_defect"] = True      # the model cannot be evaluated (broken build): let the listed
+                    # known findings absorb their cells, anything else is reported as the failing input
                     if ctx.violation({"kind": "kernel-differs-from-dense-definition", "case": case, "dtype": dn,
                                       "observed": strip(obs), "expected_dense_definition": exp,
-                                      "broken_obligation": info}, key=full_key(kn, case, obs, exp)):
+                                      "broken_obligation": info}, key=key):
                         found = True
                     break
         return found
@@ -1180,6 +1230,7 @@ def run(ctx):
     ok = common.proof_stage(ctx, search_on_failure_factory(ctx))
     cases = build_cases(ctx)
     st = correspondence(ctx, cases)
+    qr = c20_qr.correspondence(ctx)
     distinct = len({json.dumps({k: v for k, v in c.items()}, sort_keys=True) for _, c in cases
                     if c["cell"].get("n", c["cell"].get("m", 2)) >= 2})
     ctx.coverage.update({
@@ -1191,18 +1242,25 @@ def run(ctx):
             "torch.linalg.qr (oracle: its output is an input of the stable_qr model) and torch.linalg.solve_triangular (modelled as multiplication by the inverse)",
             "correspondence harness harness/c20.py, harness/c20_qr.py and the comparators coq/C20/Check.v, coq/C20/CheckQR.v",
             "dense oracle: plain torch float64 on dense tensors assembled by the harness"],
-        "evaluations": st["evaluations"], "coq_terms": st["terms"], "mismatches": st["mismatches"],
-        "direct_property_failures": st["direct_failures"], "per_kernel": st["per_kernel"],
-        "distinct_nontrivial": distinct,
-        "rule": "distinct (kernel, structural cell, integer inputs) with matrix size >= 2; every case is run in float64 and float32, "
-                "compared exactly with the Coq model and with the dense definition",
-        "samples": [cases[len(cases) // 3][1], cases[-1][1]],
+        "evaluations": st["evaluations"] + qr["evaluations"], "coq_terms": st["terms"] + qr["terms"],
+        "mismatches_with_spec_model": st["mismatches"],
+        "direct_property_failures": st["direct_failures"],
+        "direct_property_failures_equal_to_a_transcribed_known_defect": st["direct_failures_equal_to_a_transcribed_defect"],
+        "per_kernel": st["per_kernel"],
+        "qr_pinverse": {k: v for k, v in qr.items() if k != "sample"},
+        "distinct_nontrivial": distinct + qr["distinct_nontrivial"],
+        "rule": "distinct (kernel, structural cell, integer inputs) with matrix size >= 2 (index kernels; every case is run in float64 and "
+                "float32 and compared exactly with the Coq model and with the dense definition) plus distinct (function, shape, batch, "
+                "family, dtype) cells of the QR / pseudo-inverse grid that are near-singular or at least 2 x 2",
+        "samples": [cases[len(cases) // 3][1], cases[-1][1], qr["sample"]],
     })
     ctx.assumptions = ["inputs are integer-valued tensors small enough for exact float32/float64 arithmetic",
                        "index tensors are contiguous LongTensors with the same shape as the value tensors"]
 
 
 def replay(rp):
+    if rp.get("case", {}).get("kernel") in ("stable_qr", "stable_pinverse"):
+        return c20_qr.replay(rp)
     kn = {k.name: k for k in KERNELS}.get(rp.get("case", {}).get("kernel"))
     if kn is None:
         print("replay: no kernel in", list(rp)[:8])
